@@ -170,8 +170,14 @@ func TestPropOverrides(t *testing.T) {
 		}
 		backend := route[:strings.Index(route, "/")]
 		prefix := map[string]string{"spirv": "spv.", "hlsl": "hlsl.", "msl": "msl.", "glsl": "glsl."}[backend]
-		off := func(tag string) bool { return ev.Excluded(tag) || ev.Excluded(prefix+tag) }
-		offQuiet := func(tag string) bool { return ev.ExcludedQuiet(tag) || ev.ExcludedQuiet(prefix+tag) }
+		// an open finding's tag excludes a generator feature everywhere, for one backend ("msl." + tag) or
+		// for one route ("route:msl/pipeline:" + tag)
+		off := func(tag string) bool {
+			return ev.Excluded(tag) || ev.Excluded(prefix+tag) || ev.Excluded("route:"+route+":"+tag)
+		}
+		offQuiet := func(tag string) bool {
+			return ev.ExcludedQuiet(tag) || ev.ExcludedQuiet(prefix+tag) || ev.ExcludedQuiet("route:"+route+":"+tag)
+		}
 		f.Off = off
 		gc := wgen.GenExec(t, f)
 		if ops, cmp := foldHazards(gc.Src); (ops && offQuiet("override.fold.unsupported-op")) || (cmp && offQuiet("override.fold.compare")) {
